@@ -26,6 +26,8 @@ use serde_json::{json, Value};
 use verif_core::oracle::airtime::{ldro_rule, NOMINAL_BW_MILLIHZ};
 use verif_core::*;
 
+mod hist_stage;
+
 pub const SFS: [SpreadingFactor; 8] = [
     SpreadingFactor::_5,
     SpreadingFactor::_6,
@@ -375,6 +377,9 @@ fn run_case(c: &Case, kf: &KnownFindings) -> (Option<Obs>, Verdict) {
 }
 
 pub fn replay(case: &Value, kf: &KnownFindings) -> Result<(), Failure> {
+    if case["kind"] == "history" {
+        return hist_stage::replay_hist(case, kf);
+    }
     let Some(c) = Case::from_json(case) else {
         return Err(Failure::new("bad-replay", case.clone(), "not a C15 case"));
     };
@@ -404,13 +409,15 @@ fn self_check() -> Result<(), String> {
 pub fn run(ctx: &mut Ctx) {
     ctx.level = "exploration".into();
     ctx.exhaustive = true;
-    ctx.rule = "exhaustive: 8 SF x 10 BW x 8 implementations (BaseBandModulationParams::new; Sx126x as SX1261, SX1262, STM32WL-HP, STM32WL-LP; Sx127x as SX1276, SX1272; Lr1110) x 4 frequency classes (169, 433, 868, 915 MHz) x paths (RadioKind create+set_modulation_params with all 4 coding rates; LoRa::prepare_for_rx; LoRa::prepare_for_tx; LorawanRadio::setup_rx; LorawanRadio::tx; LR1110 and the calculator: RadioKind/new only) x prior content 0x00/0xFF of the SX127x register holding the bit x the 8 board-option combinations (rx_boost, tx_boost or DC-DC, TCXO) of the SX126x/SX127x drivers. One evaluation = one (implementation, path, SF, BW, CR, frequency, prior) tuple executed against the chip model, refused pairs included. Non-trivial (distinct by construction): the pair is accepted by the implementation and its nominal symbol time is within a factor 2 of the threshold (8.19 ms < 2^SF/BW < 32.76 ms: 12 pairs)".into();
+    ctx.rule = "exhaustive: 8 SF x 10 BW x 8 implementations (BaseBandModulationParams::new; Sx126x as SX1261, SX1262, STM32WL-HP, STM32WL-LP; Sx127x as SX1276, SX1272; Lr1110) x 4 frequency classes (169, 433, 868, 915 MHz) x paths (RadioKind create+set_modulation_params with all 4 coding rates; LoRa::prepare_for_rx; LoRa::prepare_for_tx; LorawanRadio::setup_rx; LorawanRadio::tx; LR1110 and the calculator: RadioKind/new only) x prior content 0x00/0xFF of the SX127x register holding the bit x the 8 board-option combinations (rx_boost, tx_boost or DC-DC, TCXO) of the SX126x/SX127x drivers. One evaluation = one (implementation, path, SF, BW, CR, frequency, prior) tuple executed against the chip model, refused pairs included. Non-trivial (distinct by construction): the pair is accepted by the implementation and its nominal symbol time is within a factor 2 of the threshold (8.19 ms < 2^SF/BW < 32.76 ms: 12 pairs)".to_string() + hist_stage::RULE;
     ctx.assumptions = vec![
         "threshold 16.38 ms evaluated exactly with the nominal LoRa bandwidths (7.8125, 10.41(6), 15.625, 20.8(3), 31.25, 41.(6), 62.5, 125, 250, 500 kHz)".into(),
         "SF8 @ 15.6 kHz (nominal 16.384 ms, crate constant 15630 Hz gives 16.378 ms) is agreement-only: every implementation must decide like the airtime calculator".into(),
         "chip models: SX126x SetModulationParams = opcode 0x8B byte 4; LR11xx SetModulationParams = opcode 0x020F byte 4; SX1276 RegModemConfig3 (0x26) bit 3; SX1272 RegModemConfig1 (0x1D) bit 0".into(),
         "LR1110 is exercised at the RadioKind level only (no LR11xx chip model for LoRa::new)".into(),
         "a pair the driver refuses (Err) is outside the quantifier ('every chip variant that supports the pair'); which pairs a driver ought to accept is not judged here".into(),
+        "stateful stage: the statement's 'program the chip accordingly' is read as: whenever a request for (SF, BW) has been carried out, the LowDataRateOptimize setting the chip holds for that operation is the rule's decision for (SF, BW), whatever the same driver instance did before; a judged operation that returns an error before anything goes on the air is not judged; errors of prefix operations are tolerated".into(),
+        "stateful stage chip doubles: SX126x SetSleep bit 2 = 0 and LR11xx SetSleep bit 0 = 0 (no retention), NRESET and LR11xx Reboot return the chip to its power-on state on the next access; SX127x keeps its registers in sleep mode and restores the reset values on NRESET; the seed only selects the random histories, the enumerated ones are fixed".into(),
     ];
     if let Err(e) = self_check() {
         ctx.stats.fail(Failure::new("harness-bug", json!({"self_check": e}), format!("C15 oracle self-check failed: {e}")).with_fp("harness-bug/c15-selfcheck"));
@@ -490,4 +497,5 @@ pub fn run(ctx: &mut Ctx) {
             }
         }
     });
+    hist_stage::stage(ctx);
 }
